@@ -326,6 +326,8 @@ def defect_pattern(c):
         return "dual-stack-client-cannot-read-serverhello-with-protected-flight"
     if any(x.get("wrapped") for x in (c["alerts"] or [])):
         return "handshake-alert-wrapped-in-unencrypted-cid-record"
+    if any(x["epoch"] >= 2 for x in (c["alerts"] or [])) and "pending" in (cl["class"], sv["class"]):
+        return "dtls13-unprotected-alert-under-handshake-epoch-ignored-by-peer"
     return "other"
 
 
